@@ -483,12 +483,17 @@ func (g *wgen) fill(v reflect.Value, depth int) {
 			v.Set(reflect.MakeSlice(v.Type(), 0, 0))
 		default:
 			n := 1 + r.IntN(3)
-			if g.wide && chance(r, 0.25) && g.budget > 0 {
+			isWide := false
+			if ek := v.Type().Elem().Kind(); g.wide && chance(r, 0.25) && g.budget > 0 && ek != reflect.Struct && ek != reflect.Slice && ek != reflect.Map {
 				n = 60 + r.IntN(90) // wide collections: counters / limits that depend on the number of elements visited
 				g.budget--
+				isWide = true
 			}
 			s := reflect.MakeSlice(v.Type(), n, n)
 			for i := 0; i < n; i++ {
+				if isWide && v.Type().Elem().Kind() == reflect.Ptr && i < n-2 && chance(r, 0.95) {
+					continue // mostly nil pointers
+				}
 				g.fill(s.Index(i), depth+1)
 			}
 			v.Set(s)
